@@ -159,7 +159,13 @@ def handleC08 (args : List String) (obs : String) : String :=
         let fails :=
           (if wire.isPrefixOf ref then [] else ["not-a-prefix"]) ++
           (if wire.length < ref.length && res == "ok" then ["truncation-reported-ok"] else []) ++
-          (if wire == ref && res != "ok" && c.failAt.all (fun k => k > ref.length) then ["complete-reported-error"] else []) ++
+          -- (a source that fails by itself — an event too large for the encoder's read slice — has no intact reference:
+          --  everything before the failure is on the wire and the error is the right result)
+          (if wire == ref && res != "ok" && c.failAt.all (fun k => k > ref.length) && !c.full.body.src.endsWithError then ["complete-reported-error"] else []) ++
+          (if c.full.body.src.endsWithError && res == "ok" then ["source-failure-reported-ok"] else []) ++
+          (if c.full.body.src.endsWithError && c.full.body.len.isNone &&
+              (match ChunkDecoder.decode (wire.drop ((ReadSpec.firstBlankLine wire).getD 0 + 4)) with | .complete .. => true | _ => false)
+            then ["failed-body-looks-complete"] else []) ++
           (if waf == "0" then [] else ["write-after-failure"])
         if fails.isEmpty then "ok" else "FAIL:" ++ ",".intercalate fails ++ ":"
       | _, _, _, _ => if obs == "PANIC" then "FAIL:panic:" else "FAIL:unparsable-observation:"
